@@ -1,5 +1,7 @@
 // Worker protocol + sanitizer hooks shared by all drivers.
 #include "core.hpp"
+#include <map>
+#include <unistd.h>
 #include <cstdio>
 #include <cstring>
 #include <string>
@@ -12,7 +14,7 @@
 
 // ---- sanitizer defaults -----------------------------------------------------
 extern "C" __attribute__((used, visibility("default"))) const char* __asan_default_options() {
-    return "exitcode=77:detect_leaks=0:abort_on_error=0:allocator_may_return_null=1:handle_abort=1:detect_stack_use_after_return=0:symbolize=1:malloc_context_size=8";
+    return "exitcode=77:detect_leaks=1:leak_check_at_exit=0:abort_on_error=0:allocator_may_return_null=1:handle_abort=1:detect_stack_use_after_return=0:symbolize=1:malloc_context_size=8";
 }
 extern "C" __attribute__((used, visibility("default"))) const char* __ubsan_default_options() {
     return "print_stacktrace=0:silence_unsigned_overflow=1";
@@ -64,6 +66,32 @@ static void emit(const Result& r, const Json* plan, const Trace& tr) {
     fputs("R ", stdout); fwrite(s.data(), 1, s.size(), stdout); fputc('\n', stdout); fflush(stdout);
 }
 
+// ---- LeakSanitizer between runs (VERIF_LSAN=1): memory the library obtained outside the simulated manager (ICU objects, global new) and lost.
+// Each check lists every leak of the process so far; what grew since the previous check belongs to the run that just ended.
+extern "C" int __lsan_do_recoverable_leak_check() __attribute__((weak));
+extern "C" void __sanitizer_set_report_path(const char*) __attribute__((weak));
+static std::map<std::string, long> g_leakSeen;
+static void lsanAfterRun(Result& res) {
+    static const bool on = getenv("VERIF_LSAN") != nullptr; if (!on || !__lsan_do_recoverable_leak_check || !__sanitizer_set_report_path) return;
+    char base[96]; snprintf(base, sizeof base, "/tmp/verif-lsan-%d", (int)getpid()); std::string file = std::string(base) + "." + std::to_string((int)getpid());
+    unlink(file.c_str()); __sanitizer_set_report_path(base);
+    const int any = __lsan_do_recoverable_leak_check();
+    __sanitizer_set_report_path("stderr");
+    if (!any) { unlink(file.c_str()); return; }
+    FILE* f = fopen(file.c_str(), "r"); if (!f) return;
+    std::map<std::string, long> now; std::map<std::string, std::string> text; char line[2048]; long bytes = 0; std::vector<std::string> frames; bool direct = false;
+    auto flush = [&]() { if (direct && bytes) { std::string sig; int got = 0; for (auto& fr : frames) { if (fr.find("operator new") != std::string::npos || fr.find("malloc") != std::string::npos || fr.find("calloc") != std::string::npos || fr.find("realloc") != std::string::npos) continue; if (got) sig += "<"; sig += fr; if (++got == 3) break; } if (sig.empty()) sig = "unknown"; now[sig] += bytes; if (!text.count(sig)) { std::string t; for (auto& fr : frames) t += fr + " < "; text[sig] = t; } } bytes = 0; frames.clear(); direct = false; };
+    while (fgets(line, sizeof line, f)) {
+        std::string l = line;
+        if (l.compare(0, 14, "Direct leak of") == 0) { flush(); direct = true; bytes = atol(l.c_str() + 15); }
+        else if (l.compare(0, 16, "Indirect leak of") == 0 || l.compare(0, 8, "SUMMARY:") == 0) flush();
+        else if (direct) { size_t q = l.find(" in "); if (l.find("    #") == 0 && q != std::string::npos) { std::string fn = l.substr(q + 4); size_t e = fn.find(" /"); if (e == std::string::npos) e = fn.find(" ("); if (e != std::string::npos) fn = fn.substr(0, e); size_t par = fn.find('('); if (par != std::string::npos) fn = fn.substr(0, par); for (const char* ns : { "xalanc_1_12::", "xercesc_3_2::", "icu_72::" }) { size_t z; while ((z = fn.find(ns)) != std::string::npos) fn.erase(z, strlen(ns)); } while (!fn.empty() && (fn.back() == '\n' || fn.back() == ' ')) fn.pop_back(); frames.push_back(fn); } }
+    }
+    flush(); fclose(f); unlink(file.c_str());
+    for (auto& kv : now) { long before = g_leakSeen.count(kv.first) ? g_leakSeen[kv.first] : 0; if (kv.second > before) res.violate("leak:lsan", kv.first, "LeakSanitizer: " + std::to_string(kv.second - before) + " byte(s) lost during this run, allocated from " + text[kv.first]); }
+    g_leakSeen = now;
+}
+
 static void runOne(Driver& d, const Json& plan, uint64_t run, uint64_t seed, bool withPlan, bool keepTrace) {
     Result res; res.run = run; res.seed = seed; Trace tr; tr.keep = keepTrace;
     ubsanReset();
@@ -71,6 +99,7 @@ static void runOne(Driver& d, const Json& plan, uint64_t run, uint64_t seed, boo
     try { d.execute(plan, res, tr); }
     catch (const std::exception& e) { res.harness(std::string("exception escaped driver: ") + e.what()); }
     catch (...) { res.harness("unknown exception escaped driver"); }
+    lsanAfterRun(res);
     auto ub = ubsanTake();
     if (!ub.empty()) {
         Json l = Json::array(); for (auto& s : ub) l.push(s); res.extra["ubsan"] = l;
